@@ -83,7 +83,7 @@ Next == /\ Len(hist) < MaxOps /\ kind # "plain"
            \/ \E S \in SUBSET ColSet : Subset(S)
            \/ Concat
            \/ \E n \in {1, 3} : ToDask(n)
-           \/ \E op \in {"dask_filter", "dask_cx", "dask_persist"} : DaskRowOp(op)
+           \/ \E op \in {"dask_filter", "dask_cx", "dask_persist", "dask_pack"} : DaskRowOp(op)      \* dask_pack = pack_partitions: same rows, same active column
            \/ DaskInferred("dask_map_identity")
            \/ \E c \in GeoCols : DaskSetGeometry(c)
            \/ \E S \in SUBSET ColSet : DaskSubset(S)
